@@ -76,7 +76,42 @@ func protectedVia(c *Ctx, re *Reach, e writeEv, protected map[*types.Named]bool)
 		}
 		return nil, nil
 	}
-	return visit(e.Target.Root, 0)
+	// the root may be a loop-carried slice variable: phi(parameter, append(that[:i], …)) still denotes (also) the caller's
+	// backing array
+	seen := map[ssa.Value]bool{}
+	var roots func(v ssa.Value, depth int) (*types.Named, *types.Var)
+	roots = func(v ssa.Value, depth int) (*types.Named, *types.Var) {
+		if v == nil || seen[v] || depth > 6 {
+			return nil, nil
+		}
+		seen[v] = true
+		switch x := v.(type) {
+		case *ssa.Parameter:
+			return visit(x, 0)
+		case *ssa.Phi:
+			for _, ed := range x.Edges {
+				if o, f := roots(ed, depth+1); o != nil {
+					return o, f
+				}
+			}
+		case *ssa.Call:
+			if b, ok := x.Call.Value.(*ssa.Builtin); ok && b.Name() == "append" && len(x.Call.Args) > 0 {
+				ap := path(x.Call.Args[0])
+				for _, st := range ap.Steps {
+					if st.Field != nil {
+						if o := c.w.ownerOf(st.Field); o != nil && protected[o] {
+							return o, st.Field
+						}
+					}
+				}
+				return roots(ap.Root, depth+1)
+			}
+		case *ssa.Slice:
+			return roots(path(x.X).Root, depth+1)
+		}
+		return nil, nil
+	}
+	return roots(e.Target.Root, 0)
 }
 
 // readonlyRule is shared by C08.readonly, C04.noargwrite, C02.fresh.
